@@ -81,13 +81,15 @@ Definition se_var_check (wa : bool) (Tf st ast sv av vf : list (list D)) : Z :=
 
 (* C06: 1 = tmpw not the inverse-variance mean, 2 = tmpw outside [tmpf, tmpb], 3 = approx formula, 4 = approx > min,
    5 = lower > tmpw_var, 6 = a variance not strictly positive *)
-Definition c06_check (slack : Z) (Tf Tb Tw vf vb vw vap vlo : list (list D)) : Z :=
+(* sabs: absolute slack of the ORDERING tests - the round-off floor eps * cond(N) * max variance supplied by the harness: where forward and
+   backward variances cancel to many digits (near-unidentifiable layouts) an ordering between two such differences cannot be read in floats *)
+Definition c06_check (slack : Z) (sabs : D) (Tf Tb Tw vf vb vw vap vlo : list (list D)) : Z :=
   let cell (f : nat -> nat -> bool) := forallb (fun i => forallb (f i) (seq 0 nt)) (seq 0 nx) in
   if negb (cell (fun i t => dlt dzero (a2 vf i t) && dlt dzero (a2 vb i t) && dlt dzero (a2 vw i t) && dlt dzero (a2 vap i t) && dlt dzero (a2 vlo i t))) then 6
   else if negb (cell (fun i t => tmpw_ok e (a2 Tf i t) (a2 Tb i t) (a2 Tw i t) (a2 vf i t) (a2 vb i t))) then 1
   else if negb (cell (fun i t => between slack (a2 Tf i t) (a2 Tb i t) (a2 Tw i t))) then 2
   else if negb (cell (fun i t => approx_ok e (a2 vf i t) (a2 vb i t) (a2 vap i t))) then 3
-  else if negb (cell (fun i t => dle (a2 vap i t) (dmul (dadd done (dpow2 slack)) (a2 vf i t)) && dle (a2 vap i t) (dmul (dadd done (dpow2 slack)) (a2 vb i t)))) then 4
-  else if negb (cell (fun i t => dle (a2 vlo i t) (dmul (dadd done (dpow2 slack)) (a2 vw i t)))) then 5
+  else if negb (cell (fun i t => dle (a2 vap i t) (dadd (dmul (dadd done (dpow2 slack)) (a2 vf i t)) sabs) && dle (a2 vap i t) (dadd (dmul (dadd done (dpow2 slack)) (a2 vb i t)) sabs))) then 4
+  else if negb (cell (fun i t => dle (a2 vlo i t) (dadd (dmul (dadd done (dpow2 slack)) (a2 vw i t)) sabs))) then 5
   else 0.
 End All.
